@@ -3,6 +3,8 @@
 package main
 
 import (
+	"bytes"
+	"compress/gzip"
 	"context"
 	"encoding/binary"
 	"fmt"
@@ -314,6 +316,94 @@ func (x c34Var) desc() string {
 	return fmt.Sprint(x.v)
 }
 
+// ---- attribute sweep: every attributes bit pattern on otherwise VALID batches
+
+// c34AttrPatterns is the fixed list of 16-bit attributes words: every single bit; compression codes
+// 0..7 alone and together with every combination of the timestamp-type (0x08), transactional (0x10)
+// and control (0x20) bits and with the delete-horizon bit (0x40); unused bits (0x80..0x8000) alone,
+// all together and on top of each flag; all ones; then n PRNG-chosen words.
+func c34AttrPatterns(rng *rand.Rand, n int) []uint16 {
+	var out []uint16
+	seen := map[uint16]bool{}
+	add := func(a uint16) {
+		if !seen[a] {
+			seen[a] = true
+			out = append(out, a)
+		}
+	}
+	for _, flags := range []uint16{0x20, 0x30, 0x10, 0x08, 0x00, 0x18, 0x28, 0x38, 0x40, 0x60, 0x78} { // control first: a scanner may skip such batches
+		for code := uint16(0); code < 8; code++ {
+			add(flags | code)
+		}
+	}
+	for k := 0; k < 16; k++ {
+		add(1 << k)
+	}
+	for _, a := range []uint16{0xffff, 0x7fff, 0xff80, 0xff80 | 0x20, 0xff80 | 0x10, 0xff80 | 0x08, 0xfff8, 0xffe0, 0xffdf, 0x8020, 0x0120, 0x00a0} {
+		add(a)
+	}
+	for i := 0; i < n; i++ {
+		add(uint16(rng.Intn(1 << 16)))
+	}
+	return out
+}
+
+func c34AttrDesc(a uint16) string {
+	d := fmt.Sprintf("attributes=%#04x(compression=%d", a, a&7)
+	for _, f := range []struct {
+		bit  uint16
+		name string
+	}{{0x08, "log_append_time"}, {0x10, "transactional"}, {0x20, "control"}, {0x40, "delete_horizon"}} {
+		if a&f.bit != 0 {
+			d += "," + f.name
+		}
+	}
+	if u := a &^ 0x7f; u != 0 {
+		d += fmt.Sprintf(",unused=%#04x", u)
+	}
+	return d + ")"
+}
+
+// c34Timed is a valid batch of 2..4 records whose timestamps span first .. first+1000 ms (deltas 0, ..,
+// 1000), so that the restore cut-offs the pitr leg derives from the segment's first batch (first,
+// first + 500 ms) fall inside it and the per-record scanning path is taken. marker: the records look
+// like transaction markers (key = version 0 + type 0/1, value = version 0 + coordinator epoch).
+func c34Timed(rng *rand.Rand, first int64, attrs uint16, marker bool) *c34Batch {
+	n := 2 + rng.Intn(3)
+	b := &c34Batch{first: first, max: first + 1000, count: int32(n), lod: int32(n - 1), attrs: int16(attrs)}
+	for i := 0; i < n; i++ {
+		r := c34Rec{od: c34Var{v: int64(i)}, ts: c34Var{v: int64(i * 1000 / (n - 1))}}
+		if marker {
+			r.key = []byte{0, 0, 0, byte(rng.Intn(2))}
+			r.val = []byte{0, 0, 0, 0, 0, byte(rng.Intn(9))}
+		} else {
+			r.key = []byte(fmt.Sprintf("k%d", rng.Intn(9)))
+			r.val = make([]byte, 1+rng.Intn(24))
+			rng.Read(r.val)
+			if rng.Intn(3) == 0 {
+				r.hdrs = []c34Hdr{{k: []byte("h"), v: []byte("x"), klen: c34Var{v: 1}, vlen: c34Var{v: 1}}}
+				r.hcount.v = 1
+			}
+		}
+		r.klen.v, r.vlen.v = int64(len(r.key)), int64(len(r.val))
+		b.recs = append(b.recs, r)
+	}
+	return b
+}
+
+// c34GzipRecords returns batch bytes whose records section is really gzip-compressed (what a
+// compression code 1 batch of a real client looks like): header of w, gzip(records of w), CRC redone.
+func c34GzipRecords(w []byte) []byte {
+	var z bytes.Buffer
+	zw := gzip.NewWriter(&z)
+	zw.Write(w[61:])
+	zw.Close()
+	out := append(append([]byte(nil), w[:61]...), z.Bytes()...)
+	binary.BigEndian.PutUint32(out[8:], uint32(len(out)-12))
+	binary.BigEndian.PutUint32(out[17:], crc32.Checksum(out[21:], c34Castagnoli))
+	return out
+}
+
 // c34Wrap assembles a segment file the way the spec lays it out (harness-side, for the
 // "every byte string" half of the quantifier).
 func c34Wrap(base int64, count int32, body []byte, last int64) []byte {
@@ -375,7 +465,7 @@ func c34RawSegment(base int64, count int32, body []byte) []byte {
 // segments, indexes) that the crashbox legs of every module run against.
 func TestVerifC34Gen(t *testing.T) {
 	r := verifkit.Start(t, "C34", "gen")
-	defer r.Finish("stage 1 (corpus): (b) hostile record batches - valid batches with 1-2 structure-aware mutations (record count, batch length, record length, key/value/header lengths and header count set to 0/-1/off-by-one/64Ki..1Mi/just above 64 MiB/2^31-1/2^31/2^32/2^35/2^63-1/-2^63, over-long, unterminated and missing varints, compression bits, extreme timestamps, trailing bytes, bad CRC) and raw noise >= 61 bytes - are sent through the real handler.handleProduce (acks -1/0) and every segment+index object the broker then wrote is collected: exactly what a client can plant; (a) byte strings: the same hostile batches wrapped by the harness in spec-conformant and mutated segment header/footer, every-byte truncations of small valid segments (file cut, and body cut with footer re-attached), bit flips, pure noise with and without magic/framing; runt / minimal frames (batch length 1..60 in turn, also lengths running past the bytes present and bare / partial frame headers) as the last thing in the segment: exactly at the end of the body before a valid or a broken footer, at the end of a footer-less file, running into the footer, followed by a little padding, two in a row, after 0..2 well-formed batches, and - through the broker - as the bytes a client appends to an accepted batch whose own length field stops short of them; index files: broker-written, count field set to hostile values, truncations, noise, k whole entries + a 1..11-byte partial entry with count k-1/k/k+1, header cut at every byte. This leg only generates; the crashbox legs judge. non-trivial = input reaches per-batch parsing (passes size/magic/framing)",
+	defer r.Finish("stage 1 (corpus): (b) hostile record batches - valid batches with 1-2 structure-aware mutations (record count, batch length, record length, key/value/header lengths and header count set to 0/-1/off-by-one/64Ki..1Mi/just above 64 MiB/2^31-1/2^31/2^32/2^35/2^63-1/-2^63, over-long, unterminated and missing varints, compression bits, extreme timestamps, trailing bytes, bad CRC) and raw noise >= 61 bytes - are sent through the real handler.handleProduce (acks -1/0) and every segment+index object the broker then wrote is collected: exactly what a client can plant; attribute sweep: every attributes word of a fixed list (compression codes 0..7 alone and combined with every combination of the timestamp-type 0x08, transactional 0x10 and control 0x20 bits and with delete-horizon 0x40; every single bit 0..15; unused bits alone, all together and on top of each flag; 0xffff; plus PRNG words) on an otherwise valid, CRC-correct batch of 2..4 records spanning first .. first + 1000 ms, alone in its segment and between / before / after ordinary batches, with transaction-marker shaped records where the control bit is set and a really gzip-compressed records section where the code says gzip, each broker-written (through handleProduce) and harness-wrapped; (a) byte strings: the same hostile batches wrapped by the harness in spec-conformant and mutated segment header/footer, every-byte truncations of small valid segments (file cut, and body cut with footer re-attached), bit flips, pure noise with and without magic/framing; runt / minimal frames (batch length 1..60 in turn, also lengths running past the bytes present and bare / partial frame headers) as the last thing in the segment: exactly at the end of the body before a valid or a broken footer, at the end of a footer-less file, running into the footer, followed by a little padding, two in a row, after 0..2 well-formed batches, and - through the broker - as the bytes a client appends to an accepted batch whose own length field stops short of them; index files: broker-written, count field set to hostile values, truncations, noise, k whole entries + a 1..11-byte partial entry with count k-1/k/k+1, header cut at every byte. This leg only generates; the crashbox legs judge. non-trivial = input reaches per-batch parsing (passes size/magic/framing)",
 		"the broker's whole validation of a produced batch is len >= 61 (NewRecordBatchFromBytes); measured here: the share of hostile batches handleProduce acknowledged")
 	dir := verifc34.CorpusDir()
 	ctx := context.Background()
@@ -466,6 +556,72 @@ func TestVerifC34Gen(t *testing.T) {
 			}
 		}
 		collect(topic, "valid/broker")
+	}
+	// attribute sweep: every attributes bit pattern (control, transactional, timestamp type, compression
+	// codes 0..7, delete horizon, unused bits, PRNG words) on an otherwise valid, CRC-correct batch whose
+	// timestamps make every restore path reachable: alone in its segment, between / before / after
+	// ordinary batches (a scanner that skips or special-cases such a batch must still move on to the
+	// next frame), as transaction-marker shaped records where the control bit is set, and with a really
+	// gzip-compressed records section where the code says gzip; each both broker-written (the client
+	// batch goes through handleProduce) and harness-wrapped
+	pats := c34AttrPatterns(r.Rand(900000), r.N(24, 400))
+	for i, a := range pats {
+		rng := r.Rand(900001 + i)
+		first := int64(1_700_000_000_000) + rng.Int63n(1000000)
+		desc := c34AttrDesc(a)
+		r.Seen("attribute_patterns", fmt.Sprintf("%#04x", a))
+		type shape struct {
+			name string
+			ws   [][]byte
+		}
+		plain := func() []byte { w, _ := c34Timed(rng, first, 0, false).encode(); return w }
+		special := func(marker bool) []byte { w, _ := c34Timed(rng, first, a, marker).encode(); return w }
+		shapes := []shape{{name: "alone", ws: [][]byte{special(false)}}}
+		switch i % 3 {
+		case 0:
+			shapes = append(shapes, shape{name: "between_ordinary_batches", ws: [][]byte{plain(), special(false), plain()}})
+		case 1:
+			shapes = append(shapes, shape{name: "before_ordinary_batch", ws: [][]byte{special(false), plain()}})
+		default:
+			shapes = append(shapes, shape{name: "after_ordinary_batch", ws: [][]byte{plain(), special(false)}})
+		}
+		if a&0x20 != 0 {
+			shapes = append(shapes, shape{name: "marker_records_between_ordinary_batches", ws: [][]byte{plain(), special(true), plain()}})
+		}
+		if a&7 == 1 {
+			shapes = append(shapes, shape{name: "gzip_records_after_ordinary_batch", ws: [][]byte{plain(), c34GzipRecords(special(false))}})
+		}
+		for si, sh := range shapes {
+			var body []byte
+			total := int32(0)
+			for _, w := range sh.ws {
+				total += int32(binary.BigEndian.Uint32(w[57:61]))
+			}
+			// broker-written
+			topic := fmt.Sprintf("c34a-%d-%d", i, si)
+			for k, w := range sh.ws {
+				acks := int16(0)
+				if k == len(sh.ws)-1 {
+					acks = -1
+				}
+				r.Count("attr_batches_sent", 1)
+				if produce(topic, acks, w) {
+					r.Count("attr_batches_acknowledged", 1)
+				}
+			}
+			if collect(topic, "attrs/broker:"+desc+","+sh.name) == 0 {
+				r.Count("attr_topics_without_a_segment", 1)
+			}
+			// harness-wrapped: base offsets patched the way the broker lays batches out
+			off := int64(0)
+			for _, w := range sh.ws {
+				w = append([]byte(nil), w...)
+				binary.BigEndian.PutUint64(w, uint64(off))
+				off += int64(binary.BigEndian.Uint32(w[57:61]))
+				body = append(body, w...)
+			}
+			addSeg("attrs/wrapped:"+desc+","+sh.name, c34Wrap(0, total, body, int64(total)-1), c34Index([][2]int64{{0, 32}}, 1, 100))
+		}
 	}
 	// (b) fixed minimal hostile batches first: one valid one-record batch {key "k", value "v", one header h=x} with one field changed
 	one := func() *c34Batch {
@@ -819,6 +975,8 @@ func TestVerifC34Gen(t *testing.T) {
 	r.Note("hostile_batches_acknowledged_by_broker", fmt.Sprintf("%d", accepted))
 	r.Sample(map[string]any{"segments_container": segW.N, "indexes_container": idxW.N})
 	r.Floor("segment_inputs_runt", 400)
+	r.Floor("segment_inputs_attrs", 400)
+	r.Floor("attribute_patterns", 120)
 	r.Floor("segment_inputs_broker", 200)
 	r.Floor("segment_inputs_reaching_batch_parser", 1000)
 }
